@@ -94,18 +94,21 @@ func harnessFatal(format string, a ...any) {
 // ---------------------------------------------------------------- name / content tables
 
 type zipNaming struct {
-	names    map[string]string // abstract segment -> real name
-	srcSlash bool              // pass srcDir with a trailing "/"
-	dstSlash bool              // pass destDir with a trailing "/"
-	dstFresh bool              // round trip: destination does not exist yet (nested, to be created)
-	dstStale bool              // round trip: the destination already holds older, LONGER versions of the selected files
-	ordered  bool              // real names sort like the abstract ones (entry order comparable)
+	names     map[string]string // abstract segment -> real name
+	srcSlash  bool              // pass srcDir with a trailing "/"
+	dstSlash  bool              // pass destDir with a trailing "/"
+	dstFresh  bool              // round trip: destination does not exist yet (nested, to be created)
+	dstStale  bool              // round trip: the destination already holds older, LONGER versions of the selected files
+	backslash bool              // hostile archives: entry names use '\\' instead of '/' (only confinement is judged)
+	ordered   bool              // real names sort like the abstract ones (entry order comparable)
 }
 
 func zipNamingOf(variant string) *zipNaming {
 	switch variant {
 	case "", "plain":
 		return &zipNaming{names: map[string]string{"a": "vz-a", "b": "vz-b", "c": "vz-c", "dest": "vz-dest", "dest2": "vz-dest2"}, ordered: true}
+	case "bslash":
+		return &zipNaming{names: map[string]string{"a": "vz-a", "b": "vz-b", "c": "vz-c", "dest": "vz-dest", "dest2": "vz-dest2"}, ordered: true, backslash: true}
 	case "stale":
 		// extracting again into a destination that holds an earlier extraction: the files must be reproduced, not patched
 		return &zipNaming{names: map[string]string{"a": "vz-a", "b": "vz-b", "c": "vz-c", "dest": "vz-dest", "dest2": "vz-dest2"}, ordered: true, dstStale: true}
@@ -654,7 +657,12 @@ func replayZipExtract(b Behaviour, opt *Options) *Failure {
 		if s.Bool("dir") {
 			n += "/"
 		}
-		entries = append(entries, zipEntry{name: n, dir: s.Bool("dir"), content: zipContent(10 + s.Int("content"))})
+		if nm.backslash {
+			// the same archive as written by a tool that uses '\\' as separator: here a backslash is an ordinary
+			// character of a file name, so every such entry names a file directly inside the destination
+			n = strings.ReplaceAll(strings.TrimSuffix(n, "/"), "/", "\\")
+		}
+		entries = append(entries, zipEntry{name: n, dir: s.Bool("dir") && !nm.backslash, content: zipContent(10 + s.Int("content"))})
 		names = append(names, n)
 	}
 	zipFile := filepath.Join(root, "arch.zip")
@@ -686,7 +694,7 @@ func replayZipExtract(b Behaviour, opt *Options) *Failure {
 	if panicked {
 		return &Failure{Step: last, Kind: "drift", Sig: "zipfs: UnzipToFolder panicked on a hostile archive", Got: fmt.Sprint(pv)}
 	}
-	if b[last].Has("impl_err") {
+	if b[last].Has("impl_err") && !nm.backslash {
 		got, _ := zipScan(dst)
 		pred := map[string][]byte{}
 		for _, fr := range anyFileRecs(b[last]["impl_in"]) {
@@ -749,6 +757,8 @@ func zipRandName(r *rand.Rand) string {
 	}
 	return word(1+r.Intn(8)) + []string{"", ".txt", ".tar.gz", ".go"}[r.Intn(4)]
 }
+
+var zipBigDone bool
 
 func zipRandContent(r *rand.Rand) []byte {
 	var n int
@@ -917,6 +927,13 @@ func driveZipRoundTrip(tw *TraceWriter, rnd *rand.Rand, maxFiles int) {
 		nonEmpty[d] = true
 		rel := append(append([]string{}, d.path...), n)
 		content := zipRandContent(rnd)
+		if !zipBigDone && i == 0 {
+			// once per run: a file beyond 64 MiB (size limits and copy loops tend to sit at such round numbers);
+			// zeros with a random tail compress instantly, and the tail is what a truncated copy loses
+			zipBigDone = true
+			content = make([]byte, 64<<20+1+rnd.Intn(4096))
+			rnd.Read(content[len(content)-64:])
+		}
 		must(os.WriteFile(filepath.Join(src, filepath.Join(rel...)), content, 0o644))
 		h := sha256.Sum256(content)
 		tw.Emit(map[string]any{"op": "File", "path": names.path(rel), "h": hashes.of(string(h[:])),
